@@ -180,7 +180,12 @@ def gen_thresholds():
     return "\n".join(out)
 
 
-TARGETS = {"GenThresholds": gen_thresholds}
+def gen_patterns():
+    import capture
+    return capture.gen_patterns()
+
+
+TARGETS = {"GenThresholds": gen_thresholds, "GenPatterns": gen_patterns}
 
 
 def main(names=None):
@@ -192,7 +197,7 @@ def main(names=None):
         path = os.path.join(OUT, name + ".v")
         try:
             text = fn()
-        except (Unsupported, SyntaxError, OSError, StopIteration, IndexError) as e:
+        except Exception as e:  # fail closed on anything
             print(f"TRANSLATE-FAIL {name}: {type(e).__name__}: {e}")
             # leave a file that cannot compile so no stale model is used
             text = f"(* translation failed: {type(e).__name__}: {str(e)[:200]} *)\nDefinition translation_failed : False := I.\n"
